@@ -497,8 +497,11 @@ func c04Oracle(sc *C04Scenario, truth [][]c04Line, stdout []byte) (string, strin
 				if tl[k].text == "" && tl[k].class == 2 && !sc.Regex {
 					genuine++
 				}
-				if tl[k].text == "" && tl[k].class == 1 {
-					exact++ // straddles the start of the follow: may or may not arrive
+				if tl[k].class == 1 {
+					// straddles the start of the follow: an empty line may or may not
+					// arrive, and of any other line just the final newline may have
+					// been written after the start (an empty record, see §9.3)
+					exact++
 				}
 				if len(tl[k].text) > 0 && len(tl[k].text)%sc.Cfg.MLL == 0 {
 					exact++
